@@ -129,11 +129,18 @@ theorem tie_intersectionStableSorted (a0 a1 b0 b1 : V3) :
     tie_projection.symm, optPair_ite]
   rfl
 
+/-- `canonicalEdges` (repair D50): the two endpoint swaps are `sortEdge` (the Go code swaps when `Cmp != -1`, the hand
+    model keeps when `Cmp == -1`), the length comparison with the `compareEdges` tie-break is `stableArgs` on the sorted edges -/
+theorem tie_canonicalEdges : @EdgeNum.canonArgs = @EdgeNumFns.canonicalEdges := by
+  funext a0 a1 b0 b1
+  simp only [EdgeNum.canonArgs, stableArgs, EdgeNumFns.canonicalEdges, sortEdge, vlt, tie_compareEdges, tie_Vector_Cmp,
+    tie_Vector_Sub, tie_Vector_Norm2, ite_bne]
+  rfl
+
 theorem tie_intersectionStable (a0 a1 b0 b1 : V3) :
     optPair (EdgeNum.intersectionStable a0 a1 b0 b1) = EdgeNumFns.intersectionStable a0 a1 b0 b1 := by
-  simp only [EdgeNum.intersectionStable, intersectionStableG, stableArgs, EdgeNumFns.intersectionStable, tie_compareEdges,
-    (tie_intersectionStableSorted _ _ _ _).symm, tie_Vector_Sub, tie_Vector_Norm2]
-  split <;> rfl
+  simp only [EdgeNum.intersectionStable, intersectionStableG, EdgeNumFns.intersectionStable, tie_canonicalEdges,
+    (tie_intersectionStableSorted _ _ _ _).symm]
 
 /-- the scale argument of `PV.toVector` is not used (the vector is rescaled by its own largest component) -/
 theorem toVector_e (v : PV) (e : Int) : v.toVector e = v.toVector 0 := rfl
@@ -146,12 +153,15 @@ theorem tie_intersectionExact : @EdgeNum.intersectionExact = @EdgeNumFns.interse
     toVector_e _ (-4296), toVector_e _ (-2148), tie_Vector_Cmp, tie_structEq, tie_zero3]
   rfl
 
+/-- `Intersection` (repair D50): ONE call of `canonicalEdges`, then both kernels, the vertex sum of the hemisphere correction
+    on that same tuple, the exit canonicalisation of zeros -/
 theorem tie_Intersection (a0 a1 b0 b1 : V3) :
     EdgeNum.intersection a0 a1 b0 b1 = EdgeNumFns.Intersection E a0 a1 b0 b1 := by
-  simp only [EdgeNum.intersection, intersectionG, EdgeNumFns.Intersection, (tie_intersectionStable _ _ _ _).symm,
-    (tie_intersectionExact sin cos asin atan2).symm]
-  cases h : intersectionStableG EdgeNum.intersectionStableSorted a0 a1 b0 b1 <;>
-    simp only [EdgeNum.intersectionStable, h, optPair] <;> rfl
+  simp only [EdgeNum.intersection, intersectionG, EdgeNumFns.Intersection, tie_canonicalEdges,
+    (tie_intersectionStableSorted _ _ _ _).symm, (tie_intersectionExact sin cos asin atan2).symm]
+  cases h : EdgeNum.intersectionStableSorted (canonicalEdges a0 a1 b0 b1).1 (canonicalEdges a0 a1 b0 b1).2.1
+      (canonicalEdges a0 a1 b0 b1).2.2.1 (canonicalEdges a0 a1 b0 b1).2.2.2 <;>
+    simp only [optPair] <;> rfl
 
 /-! ### the externals whose source is in the repo (r3/precisevector.go): their hand models
     (`EdgeNum.PV.*`) are tied by the bit-exact correspondence check; here only: the source text is
